@@ -546,8 +546,13 @@ def rule_partial(rep: Report, rid="C01.partial") -> None:
     for n, ctx in nf.iter_nodes(tree):
         nonraising = ("os.path.exists", "os.path.isfile", "os.path.isdir", "os.path.lexists", "io.StringIO")
         if n[0] == "extcall" and (n[1] in ("open", "io.open") or n[1].startswith(("os.", "pathlib.", "shutil."))) and n[1] not in nonraising and n[2] and n[2][0] == src:
-            rep.ob(rid + ".io", f"file-system call on the source text: {n[1]}({fi.params()[1]})", False, file=fi.file, line=n[3], function=q,
-                   expected="source text is never used as a path", found=f"{n[1]}({fi.params()[1]}, ...) guarded by {[fmt(c, I) for c, p in nf.guards_in_ctx(ctx)]}")
+            # the instance names the circumstances as well (the dominating tests and the enclosing handlers): the same call
+            # under other circumstances fails on other inputs and is a different finding
+            gs = [("" if p else "not ") + fmt(c, I) for c, p in nf.guards_in_ctx(ctx)]
+            hs = sorted({str(h) for c in ctx if c[0] == "try" and len(c) > 2 for h in c[2]})
+            where = (" when " + " and ".join(gs) if gs else " unconditionally") + (" inside try/except " + ", ".join(hs) if hs else "")
+            rep.ob(rid + ".io", f"file-system call on the source text: {n[1]}({fi.params()[1]}){where}", False, file=fi.file, line=n[3], function=q,
+                   expected="source text is never used as a path", found=f"{n[1]}({fi.params()[1]}, ...){where}")
     # parse hands its text to the scanner
     from ..frame import parse_nf
     P = parse_nf()
